@@ -846,6 +846,13 @@ class LangServer:
             # The argument list at the level of the cursor: the arguments of calls
             # nested in earlier arguments (and their commas) are left out
             arg_string, sections = get_paren_level(line)
+            # A parenthesised sub-expression is part of an argument of the
+            # enclosing call: stand in an operand for it and look further out
+            while sections[0].start > 1 and not re.search(
+                r"[\w)\]]\s*$", line[: sections[0].start - 1]
+            ):
+                line = line[: sections[0].start - 1] + "0"
+                arg_string, sections = get_paren_level(line)
             if sections[0].start <= 1:
                 return None, None, None
             sub_string, sections = get_paren_level(line[: sections[0].start - 1])
